@@ -596,6 +596,65 @@ func (x *Exec) specialCall(st *State, i *ssa.Call, callee *ssa.Function, args []
 		k(st)
 		return true
 	}
+	// openacid/must in a -tags debug build: assumed contracts of the assertion helpers
+	if callee.Pkg != nil && callee.Pkg.Pkg.Path() == "github.com/openacid/must/enabled" && callee.Signature.Recv() != nil {
+		x.W.Assumes["openacid/must (debug build): Be.OK(f) calls f exactly once; Be.Equal/NotEqual/True panic iff the comparison fails (for two values of the same integer type: value (in)equality); no other effect"] = true
+		payload := func(v Value) (VScalar, bool) {
+			if s, ok := v.(VScalar); ok {
+				if s.Ty.K == TIface && st.boxed != nil {
+					if p, ok := st.boxed[s.T].(VScalar); ok {
+						return p, true
+					}
+					return VScalar{}, false
+				}
+				return s, true
+			}
+			return VScalar{}, false
+		}
+		switch callee.Name() {
+		case "OK":
+			cl, ok := args[1].(VClosure)
+			if !ok {
+				vfail("must.Be.OK: argument is not a closure literal")
+			}
+			cfi := x.W.funcInfo(cl.Fn)
+			nfr := &frame{fi: cfi, depth: fr.depth + 1}
+			nfr.ret = func(s *State, rs []Value) { k(s) }
+			for j, fv := range cl.Fn.FreeVars {
+				st.regs[fv] = cl.Binds[j]
+			}
+			x.enterBlock(st, cl.Fn.Blocks[0], nil, nfr)
+			return true
+		case "Equal", "NotEqual":
+			a, aok := payload(args[1])
+			b, bok := payload(args[2])
+			var g *Term
+			if !aok || !bok || a.T.S != b.T.S || a.Ty.K != b.Ty.K || (a.Ty.K == TInt && (a.Ty.W != b.Ty.W || a.Ty.Signed != b.Ty.Signed)) {
+				g = False // different dynamic types are never ObjectsAreEqual
+				if callee.Name() == "NotEqual" {
+					g = True
+				}
+			} else if callee.Name() == "Equal" {
+				g = Eq(a.T, b.T)
+			} else {
+				g = Not(Eq(a.T, b.T))
+			}
+			x.oblige(st, "must", instrOrd(i), "debug contract must.Be."+callee.Name()+" holds (no contract panic)", i.Pos(), g)
+			st.assume(g)
+			k(st)
+			return true
+		case "True":
+			c, ok := payload(args[1])
+			if !ok || !c.T.S.IsBool() {
+				vfail("must.Be.True: unsupported argument")
+			}
+			x.oblige(st, "must", instrOrd(i), "debug contract must.Be.True holds (no contract panic)", i.Pos(), c.T)
+			st.assume(c.T)
+			k(st)
+			return true
+		}
+		vfail("must.Be.%s is not modelled", callee.Name())
+	}
 	// a function whose real body does nothing (e.g. the release-build stubs of openacid/must)
 	if callee.Signature.Results().Len() == 0 && isTrivialNoop(callee) {
 		k(st)
